@@ -22,7 +22,7 @@ def run_box(ctx, maxdeg, maxcells, maxbreak, kinds=("clamped", "periodic", "cu")
                 what=what or "B-spline basis identities, degree<=%d, cells<=%d, breaks in 0..%d" % (maxdeg, maxcells, maxbreak))
     if r.violated:
         raise Machinery("BSplines.tla violates its own identity %s (the oracle is wrong):\n%s" % (r.violated, (r.trace_text or "")[:2000]))
-    return [Space(x) for x in r.rows]
+    return sorted((Space(x) for x in r.rows), key=lambda s: s.key())     # TLC's row order depends on worker scheduling
 
 
 class Space:
